@@ -391,8 +391,10 @@ func (g *gen) spelling(fromDir string, relRoot bool) string {
 			return "./" + stem
 		}
 		return dirsAbs[r.Intn(3)] + "/" + stem + []string{"", ".js", "/index.js", "/lib.js"}[r.Intn(4)]
-	case x < 58:
+	case x < 55:
 		return "./" + stem + "/../" + stems[r.Intn(len(stems))]
+	case x < 58:
+		return "./" + stem + "/" + []string{"lib", "sub", "lib/impl", "sub/impl.js"}[r.Intn(4)]
 	case x < 62:
 		return []string{".", "..", "./index", "./lib"}[r.Intn(4)]
 	case x < 80:
@@ -485,6 +487,19 @@ func (g *gen) genCase() reqCase {
 		if r.Chance(10) {
 			jsFile(d + "/sub/index.js")
 		}
+		// a sub-directory that is a package of its own (its package.json matters when it is required directly,
+		// and must NOT matter when it is reached as another package's "main")
+		for _, sub := range []string{"lib", "sub"} {
+			if r.Chance(22) {
+				add(fileSpec{Path: d + "/" + sub + "/package.json", Kind: "PM", Main: []string{"impl.js", "impl", "../lib.js", "./index.js"}[r.Intn(4)]})
+				if r.Chance(80) {
+					jsFile(d + "/" + sub + "/impl.js")
+				}
+				if r.Chance(60) {
+					jsFile(d + "/" + sub + "/index.js")
+				}
+			}
+		}
 	}
 	density := 35
 	if g.prop == "C01" {
@@ -542,8 +557,80 @@ func (g *gen) genCase() reqCase {
 			c.Reg = append(c.Reg, n)
 		}
 	}
+	// requests aimed at what exists: a file, the same without extension, its directory, the directory above —
+	// from a script in one of its ancestor directories (relative) or absolute
+	aimed := func() (topCall, bool) {
+		if len(c.Files) == 0 {
+			return topCall{}, false
+		}
+		f := c.Files[r.Intn(len(c.Files))].Path
+		target := f
+		switch r.Intn(6) {
+		case 0:
+			target = strings.TrimSuffix(strings.TrimSuffix(f, ".js"), ".json")
+		case 1, 2:
+			target = path.Dir(f)
+		case 3:
+			target = path.Dir(path.Dir(f))
+		}
+		if !strings.HasPrefix(target, "/") {
+			return topCall{Script: "main.js", Spell: "./" + target}, true
+		}
+		// an ancestor directory of the target for the requiring script
+		anc := path.Dir(target)
+		for k := r.Intn(3); k > 0 && anc != "/"; k-- {
+			anc = path.Dir(anc)
+		}
+		if r.Chance(25) {
+			return topCall{Script: path.Join(anc, "m.js"), Spell: target}, true
+		}
+		rel := strings.TrimPrefix(strings.TrimPrefix(target, anc), "/")
+		if rel == "" {
+			rel = "."
+		} else {
+			rel = "./" + rel
+		}
+		return topCall{Script: path.Join(anc, "m.js"), Spell: rel}, true
+	}
+	// templates of interactions that random trees hit too rarely
+	if !relRoot && r.Chance(12) {
+		d := dirs[r.Intn(3)] + "/" + []string{"pkg", "p", "d"}[r.Intn(3)]
+		sub := []string{"lib", "sub", "core"}[r.Intn(3)]
+		// a package whose main is a directory that is itself a package: its own package.json must be ignored
+		// when it is reached as "main", and used when it is required directly — in either order
+		delete(have, path.Clean(d+"/package.json"))
+		var kept []fileSpec
+		for _, f := range c.Files {
+			if f.Path != path.Clean(d+"/package.json") && f.Path != path.Clean(d+"/"+sub+"/package.json") {
+				kept = append(kept, f)
+			}
+		}
+		c.Files = kept
+		delete(have, path.Clean(d+"/"+sub+"/package.json"))
+		add(fileSpec{Path: d + "/package.json", Kind: "PM", Main: []string{sub, "./" + sub, sub + "/"}[r.Intn(2)]})
+		add(fileSpec{Path: d + "/" + sub + "/package.json", Kind: "PM", Main: "impl.js"})
+		jsFile(d + "/" + sub + "/impl.js")
+		if r.Chance(85) {
+			jsFile(d + "/" + sub + "/index.js")
+		}
+		a := topCall{Script: path.Join(path.Dir(d), "m.js"), Spell: "./" + path.Base(d)}
+		b := topCall{Script: path.Join(path.Dir(d), "m.js"), Spell: "./" + path.Base(d) + "/" + sub}
+		if r.Bool() {
+			a, b = b, a
+		}
+		c.Calls = append(c.Calls, a, b)
+		if r.Bool() {
+			c.Calls = append(c.Calls, a)
+		}
+	}
 	ncalls := 1 + r.Intn(8)
 	for i := 0; i < ncalls; i++ {
+		if r.Chance(45) {
+			if tc, ok := aimed(); ok {
+				c.Calls = append(c.Calls, tc)
+				continue
+			}
+		}
 		if i > 0 && r.Chance(25) { // retry / repeat an earlier call
 			c.Calls = append(c.Calls, c.Calls[r.Intn(len(c.Calls))])
 			continue
